@@ -4,6 +4,6 @@ go 1.21
 
 require pipelined.dev/signal v0.0.0
 
-require golang.org/x/exp v0.0.0-20230817173708-d852ddb80c63 // indirect
+require golang.org/x/exp v0.0.0-20230817173708-d852ddb80c63
 
 replace pipelined.dev/signal => /repo
